@@ -1,7 +1,7 @@
 import Utv.Gen.Constraints
 /-!
-The validator phase of `Rule.parse` (rule.py:1727-1746) and `LogicalType.__instancecheck__`
-(rule.py:97-114), hand-written on top of the *generated* validators (`Utv.Gen.Constraints`, T1).
+The validator phase of `Rule.parse` (rule.py:1745-1762) and `LogicalType.__instancecheck__`
+(rule.py:101-117), hand-written on top of the *generated* validators (`Utv.Gen.Constraints`, T1).
 -/
 namespace Utv.Rule
 open Utv.Py Utv.Gen
@@ -74,7 +74,7 @@ def normalise (cs : List (String × PyVal)) : List (String × PyVal) :=
         else if baseKey c.1 == "max_length" then !hasLength
         else true
 
-/-- `isinstance(obj, T)` for a constrained type with a class origin (rule.py:105-113):
+/-- `isinstance(obj, T)` for a constrained type with a class origin (rule.py:109-117):
 origin isinstance check, then a full parse.  `parse` is the type's own parse. -/
 def instancecheck (originOk : PyVal → Bool) (parse : PyVal → M PyVal) (v : PyVal) : Bool :=
   if !originOk v then false
